@@ -12,6 +12,8 @@ What is proved here (all for the abstract RW-lock discipline model `Verif.Model.
                    (for the operations the property names; the three exported methods that do not are pinned);
 * `C16_full_holds`  the discipline also covers what callers do with returned change sets (no record pointer
                    escapes; false for the pre-4d3d8c8 `GetChanges`: `C16_full_old_false`);
+* `mpt_methods_status` every exported method: inside the discipline or not, with the concrete conflicting pair for
+                   those outside; `reachable_callees_locked`, `shared_store_no_conflict`: several tries over one store;
 * `mptOld_not_ok`, `old_table_admits_race`   the table of the original code (commit 70d872e: `missingNodeKeys`
                    appended under the read lock only) does not, and its footprint admits a race in the model.
 
@@ -144,6 +146,120 @@ theorem callee_tables_ok :
     TableOK (levelNodeDB.filter (·.exported)) ∧
     TableOK [transactionCache_Get, transactionCache_Set, transactionCache_Remove, transactionCache_AddHit, transactionCache_AddMiss] := by
   decide +kernel
+
+
+/-! ## every exported method of the trie: inside the discipline or not, and why
+
+`tableOK (m :: mptScope)`: does the claimed scope together with `m` satisfy the discipline? (For a method already
+in the scope this is `mpt_table_ok` again.) -/
+
+theorem mpt_methods_status :
+    (mpt.filter (·.exported)).map (fun m => (m.name, tableOK (m :: mptScope))) =
+      [("Cache", true), ("GetMissingNodeKeys", true), ("SetNodeDB", true), ("GetNodeDB", true), ("SetVersion", false),
+       ("GetVersion", true), ("GetRoot", true), ("GetNodeValue", true), ("GetNodeValueRaw", true), ("Insert", true),
+       ("Delete", true), ("GetChanges", true), ("GetDeletes", true), ("GetChangeCount", true), ("SaveChanges", true),
+       ("Iterate", true), ("IterateFrom", false), ("PrettyPrint", true), ("GetAllMissingNodes", true),
+       ("HasMissingNodes", true), ("Validate", true), ("MergeMPTChanges", false), ("MergeChanges", true),
+       ("MergeDB", true)] := by
+  decide +kernel
+
+/-- `SetVersion`: a concrete conflicting pair — its atomic store of `Version` (field 5, no lock) against the plain
+read of `Version` that `Insert` performs (in `insertNode`) under the write lock: not protected against each other
+(confirmed with the race detector: suite op `setver`) -/
+theorem setVersion_conflict :
+    ∃ a, a ∈ footprint [mpt_SetVersion] ∧ ∃ b, b ∈ footprint [mpt_Insert] ∧
+      a.loc = b.loc ∧ a.write = true ∧ ¬ Protected a b :=
+  ⟨⟨5, true, 3005, none⟩, by decide +kernel, ⟨5, false, 0, some .W⟩, by decide +kernel, rfl, rfl,
+    by simp [Protected]⟩
+
+/-- `IterateFrom`: no conflicting pair at field level — everything it touches without the lock is either a field
+nobody writes or an internally synchronised object / the sub-locked missing-key list — but it takes the trie's lock
+not at all (`sections = 0`): it walks the store while writers change it, so it is race-free but not atomic -/
+theorem iterateFrom_status :
+    mpt_IterateFrom.lock = .none ∧ mpt_IterateFrom.sections = 0 ∧
+    mpt_IterateFrom.accesses.all (fun a => (toFAcc a).sub != 0 ||
+      (!(toFAcc a).write && frozenL (footprint (mpt_IterateFrom :: mptScope)) (toFAcc a).loc)) = true ∧
+    wholeBody (footprint (mpt_IterateFrom :: mptScope)) mpt_IterateFrom = false := by
+  decide +kernel
+
+/-- `MergeMPTChanges`: three critical sections (it reads its own root and store, and the child's root, before it
+takes the write lock: check-then-act, repeated under the lock by `mergeChanges`), and it assigns
+`db.version` — a field of the LevelNodeDB behind `db` — holding the trie's write lock but not the store's mutex -/
+theorem mergeMPTChanges_status :
+    mpt_MergeMPTChanges.sections = 3 ∧
+    (mpt_MergeMPTChanges.accesses.filter (fun a => a.kind == .innerWrite)).map
+      (fun a => (a.field, a.callee, a.mode, a.subId)) = [("db", "version", .write, 0)] ∧
+    levelNodeDB_GetDBVersion.accesses.map (fun a => (a.field, a.fid, a.kind, a.mode)) = [("version", 6, .read, .read)] := by
+  decide +kernel
+
+/-- … the concrete conflicting pair, in the LevelNodeDB's own lock space: the write of `version` (field 6) without
+the store's mutex against `LevelNodeDB.GetDBVersion`'s read under the store's read lock. Within ONE trie all other
+accesses to the store go through the trie's lock, so the pair needs a caller of `GetDBVersion` on the shared store
+(confirmed with the race detector: corpus/C16/extra/candidate_mergempt_dbversion_race.ops; concurrent merges of
+several children into one parent are race-free in the runs) -/
+theorem mergeMPTChanges_version_conflict :
+    ¬ Protected { loc := 6, write := true, sub := 0, held := none } { loc := 6, write := false, sub := 0, held := some .R } := by
+  simp [Protected]
+
+
+/-! ## several tries over one store (parent / child tries share the parent's store)
+
+Two DIFFERENT tries that share a node store run under two different trie locks, so what one trie does to the store
+is, from the other trie's point of view, done with no trie lock at all. What protects the store then is only the
+store's own lock. Two facts make this sound:
+
+* `reachable_callees_locked`: every method a trie method invokes on its store, its change collector or its node
+  cache — and every method the LevelNodeDB in turn invokes on the stores below it — is an exported method of a type
+  whose regenerated table satisfies `TableOK` (own lock held for the whole body);
+* `shared_store_lockset` / `shared_store_no_conflict`: the footprint of one trie TOGETHER with arbitrary store
+  calls made by other tries (accesses to the store state under the store's internal lock, holding none of THIS
+  trie's locks) still satisfies the lockset discipline, hence no race in any schedule. -/
+
+theorem reachable_callees_locked :
+    -- what the trie calls on its store exists, exported, in both in-memory store types (`RebaseCurrentDB` is called
+    -- only after a type assertion to *LevelNodeDB) …
+    allExportedIn memoryNodeDB (calledThrough mptScope "db" |>.filter (· != "RebaseCurrentDB")) = true ∧
+    allExportedIn levelNodeDB (calledThrough mptScope "db") = true ∧
+    -- … what a LevelNodeDB calls on the stores below it, too …
+    allExportedIn memoryNodeDB (calledThrough levelNodeDB "current" ++ calledThrough levelNodeDB "prev") = true ∧
+    allExportedIn levelNodeDB (calledThrough levelNodeDB "current" ++ calledThrough levelNodeDB "prev") = true ∧
+    -- … and on the change collector and the node cache
+    allExportedIn changeCollector (calledThrough mptScope "ChangeCollector") = true ∧
+    allExportedIn transactionCache (calledThrough mptScope "cache") = true ∧
+    -- all exported methods of these types hold their own lock for their whole body
+    TableOK (memoryNodeDB.filter (·.exported)) ∧ TableOK (levelNodeDB.filter (·.exported)) ∧
+    TableOK (changeCollector.filter (·.exported)) ∧
+    TableOK (transactionCache.filter (fun m => (calledThrough mptScope "cache").contains m.name)) := by
+  decide +kernel
+
+/-- a store call made by ANOTHER trie that shares this trie's store: an access to the store state (location
+`1000 + 3`) under the store's own lock (`2000 + 3`), holding none of this trie's locks -/
+def otherTrieStoreCall : FAcc := { loc := 1003, write := true, sub := 2003, held := none }
+
+theorem shared_store_lockset : LocksetOK (otherTrieStoreCall :: footprint mptScope) :=
+  lockset_of_fpOK (fpOK_of_fpOKb (by decide +kernel))
+
+/-- **No data race with several tries over one store**: threads running operations of this trie (conforming to the
+regenerated table) together with threads that perform arbitrary store calls on behalf of other tries never reach a
+race, under any schedule -/
+theorem shared_store_no_conflict (scripts : Tid → List (Prog V ρ)) (mem0 : Loc → V)
+    (hconf : ∀ t p, p ∈ scripts t → Conf (otherTrieStoreCall :: footprint mptScope) none p) :
+    ∀ c, Reachable scripts mem0 c → ¬ Race c := by
+  rintro c ⟨s, ex⟩
+  exact ((SafeInv.init hconf).exec ex).no_race shared_store_lockset
+
+/-- non-vacuity: a thread of this trie replacing the root under the write lock next to a thread that performs a
+store call for another trie satisfies the hypothesis of `shared_store_no_conflict` -/
+example : ∀ t p, p ∈ (fun (t : Tid) => match t with
+      | 0 => [(.acq .W (.wr 2 0 5 (.rel (.ret 0))) : Prog Nat Nat)]
+      | 1 => [.wr 1003 2003 7 (.ret 0)]
+      | _ => []) t → Conf (otherTrieStoreCall :: footprint mptScope) none p := by
+  have hW : ({ loc := 2, write := true, sub := 0, held := some .W } : FAcc) ∈ footprint mptScope := by decide +kernel
+  intro t p hp
+  match t, hp with
+  | 0, hp => simp at hp; subst hp; simp [Conf, hW]
+  | 1, hp => simp at hp; subst hp; simp [Conf, otherTrieStoreCall]
+  | n + 2, hp => simp at hp
 
 /-! ## the original code (commit 70d872e) -/
 
